@@ -27,6 +27,12 @@ CLAIMED = {
     "C05": dict(level="model_checking", ref="4/C05", technique="TLA+ trace validation (SolveTrace!Verdict: integer enumeration + Fourier-Motzkin optimisation as exact oracle) of every solver entry point's verdict on TLC-enumerated LP/MILP models",
                 text="Same events as C04; the verdict (optimum value / infeasible / unbounded, through the dedicated error kinds) must equal the specification's exact verdict; simplex-based entry points must reach a verdict (a watchdog timeout is a violation).",
                 note="optimal values compared at 1e-6 relative after snapping; integer ranges are the small declared ones"),
+    "C17": dict(level="model_checking", ref="4/C17", technique="TLA+ token-driven reader machine (LpReader.tla) as trace specification of to_lp_format on TLC-generated linear models",
+                text="LpReader.tla is an independent CPLEX-LP reader written as a state machine that consumes one token per step; for every exported text TLC runs it over the real token stream and compares the model read (sense, objective and constant, rows, relations, right-hand sides, names, bounds, binary/general sets) with the model exported.",
+                note="white-space tokenisation and float parsing of numeric tokens happen in the harness; numbers are compared by sign and bit pattern"),
+    "C20": dict(level="model_checking", ref="4/C20", technique="TLA+ trace validation (SolveTrace!DualProblems: exact re-solving of right-hand-side perturbations by Fourier-Motzkin) of Clarabel's reported shadow prices on TLC-generated named-row LPs",
+                text="For every named row whose exact optimum is differentiable in its right-hand side (equal secant slopes over +-1/8, decided by the FM oracle) the reported dual must equal that slope in the user's objective sense; duals only for named rows, exactly one each.",
+                note="duals snapped to small rationals within 1e-6; rows with non-unique sensitivities are outside the property and not judged"),
 }
 NOT_YET = {}
 ALL = [f"C{i:02d}" for i in range(1, 21)]
